@@ -57,6 +57,8 @@ def main():
                                                "stated tolerances; establishes no absence."),
             "technique": ns.get("TECHNIQUE", "property-based testing (Hypothesis) against an independent oracle"),
         })
+    fuzzed = [c["property_id"] for c in checks
+              if "\nFUZZ = " in open(os.path.join(VERIF, "pbt", "props", c["property_id"].lower() + ".py")).read()]
     man = {
         "version": 1,
         "setup_cmd": "./setup.sh",
@@ -74,6 +76,11 @@ def main():
              "serves_properties": [c["property_id"] for c in checks],
              "kind_free_text": "Hypothesis @given campaigns and rule-based state machines, sharded over "
                                "processes by derived seed, with independent reference oracles (pbt/*.py)"},
+            {"name": "atheris", "path": "pbt/fuzz_target.py",
+             "serves_properties": fuzzed,
+             "kind_free_text": "coverage-guided fuzzing (atheris/libFuzzer, pygom.* instrumented) of the same strategies "
+                               "through Hypothesis' fuzz_one_input, the property's oracle inside the target; runs as "
+                               "subprocesses of the check in both tiers, empty and seeded corpus"},
         ],
         "checks": checks,
         "not_applicable": na,
